@@ -12,6 +12,7 @@ from .source import ClassInfo, ModuleInfo, Sources
 from .values import (NT, BoundMethod, BreakSig, Builtin, BuiltinClass, ContinueSig, Event, FuncVal, ModuleVal,
                      Opaque, PathAbort, PDict, PList, PObj, PSet, PyRaise, ReturnSig, Sym, Unsupported, is_concrete)
 
+ENTAIL_TIMEOUT_MS = 150
 MAX_DEPTH = 40
 MAX_UNROLL = 64
 
@@ -55,6 +56,7 @@ class Path:
         self.alts: list[list[bool]] = []
         self.pc: list = []
         self.solver = z3.Solver()
+        self.feas_timeout_ms = feas_timeout_ms
         self.solver.set("timeout", feas_timeout_ms)
         self.trace: list[Event] = []
         self.counter = 0
@@ -97,12 +99,21 @@ class Path:
         return r == z3.sat
 
     def entails(self, cond):
-        """pc |= cond, decided by the path's solver (unknown -> False)."""
+        """pc |= cond, decided by the path's solver within a small budget (unknown -> False: no rewriting happens)."""
+        memo = self.__dict__.setdefault("_ent_memo", {})
+        key = (len(self.pc), cond.get_id())
+        if key in memo:
+            return memo[key]
         self.solver.push()
         self.solver.add(z3.Not(cond))
         self.feas_checks += 1
+        self.solver.set("timeout", ENTAIL_TIMEOUT_MS)
         r = self.solver.check()
+        self.solver.set("timeout", self.feas_timeout_ms)
         self.solver.pop()
+        memo[key] = (r == z3.unsat)
+        self._ent_keep = getattr(self, "_ent_keep", [])
+        self._ent_keep.append(cond)     # keep the AST alive so that ids stay unique
         return r == z3.unsat
 
     def model_says(self, cond):
@@ -191,6 +202,7 @@ class Interp:
         self.class_cache: dict = {}
         self.spec_total = False
         self.await_handlers = {}
+        self.ext_models = {}
         from . import prims
         prims.install(self)
 
@@ -205,6 +217,7 @@ class Interp:
             p = Path(prefix)
             self.path = p
             zu.ORACLE[0] = p.entails
+            zu.NTH_HOOK[0] = self._named_nth
             self.frames = []
             self.depth = 0
             self.pure_mode = 0
@@ -286,6 +299,19 @@ class Interp:
         if found:
             self.call(BoundMethod(obj, post), [], {})
 
+    def _named_nth(self, seq, pos):
+        """A constant naming seq[pos] (seq an uninterpreted Seq(Int) constant): keeps VCs free of z3's nth_i/nth_u ites."""
+        memo = self.path.__dict__.setdefault("nth_names", {})
+        key = (seq.get_id(), pos.get_id())
+        if key in memo:
+            return memo[key][2]
+        if seq.sort() != zu.BytesS:
+            return seq[pos]
+        c = z3.Int(self.path.fresh_name(f"{seq.decl().name().split('!')[0]}@"))
+        self.path.assume(c == seq[pos])
+        memo[key] = (seq, pos, c)
+        return c
+
     def in_real_code(self):
         """True if the innermost executing function body comes from the repository (not a sidecar spec)."""
         for fr in reversed(self.frames):
@@ -349,6 +375,9 @@ class Interp:
                 if sub is not None:
                     return sub
                 raise Unsupported(f"cannot resolve {attr} in {dotted}")
+            full0 = dotted + "." + attr
+            if full0 in self.ext_models:
+                return self.ext_models[full0]()
             ext = self.import_module(dotted)
             if isinstance(ext, ModuleVal):
                 if attr in ext.attrs:
